@@ -53,6 +53,15 @@ def single_case(j, path):
             print("   ", a)
         return _show(j, [] if v is None else [{"what": v.what, "detail": v.detail}], path,
                      "one execution of solve_stochast under the recorded answer sequence %s" % list(case["violation"]["choices"]))
+    if pid in ("C06", "C07", "C18", "C20") and "cfg" in case and "model" in case:
+        env.load_pygom()
+        import importlib
+        import os
+        os.environ["VERIF_JOBS"] = "1"
+        mod = importlib.import_module("checks." + pid.lower())
+        r = mod.job((case["model"], [case["cfg"]], seed))
+        viols = [{"signature": sg, "case": cs} for sg, cs in r["viol"] if not (isinstance(sg, dict) and sg.get("what") == "matches-truncated-second-order-system")]
+        return _show(j, viols, path, "configuration %s of model %s evaluated alone" % (case["cfg"], case["model"]))
     return None
 
 
